@@ -3,6 +3,7 @@
 // observed operation) x one schedule seed; inside it the cancel flag is set by
 // the k-th IsCancelled check itself (hook H1) for every requested k.
 #include <chrono>
+#include <set>
 
 #include "execution_impl.h"
 #include "impl.h"
@@ -76,6 +77,7 @@ struct RunResult {
   double finalProgress = -1;
   bool ctxCancelled = false;
   std::vector<Solid> intermediates;   // phase-2 objects forced WITHOUT a context after the observed call
+  std::vector<char> wasForced;        // ... and whether the expression itself had forced them before the call
   std::string observerClause;         // from the sync-point sampler
 };
 
@@ -146,7 +148,24 @@ RunResult run_once(const Scenario& sc, const SimSetup& s, long k, long* nChecks,
       if (!pe.M.empty()) (void)pe.M.back().WithContext(ctx).Status();
     }
     const uint32_t idCounterBefore = Manifold::Impl::meshIDCounter_;
-    for (auto& op : sc.expr) exec(e, op);
+    // Handles that are copies of one another share one lazy node: forcing any of them evaluates it
+    // for all of them. group[i] identifies the node behind pool object i.
+    std::vector<uint64_t> group(e.M.size());
+    uint64_t nextGroup = 1;
+    for (auto& gq : group) gq = nextGroup++;
+    std::set<uint64_t> forcedGroups;
+    for (auto& op : sc.expr) {
+      size_t src = (size_t)-1, dst = (size_t)-1;
+      if (!e.M.empty() && (op.name == "copy" || op.name == "assign")) {
+        src = e.mi(op.name == "assign" ? op.arg(1) : op.arg(0));
+        if (op.name == "assign") dst = e.mi(op.arg(0));
+      }
+      size_t forcedIdx = (!e.M.empty() && op.name == "force") ? e.mi(op.arg(0)) : (size_t)-1;
+      exec(e, op);
+      while (group.size() < e.M.size()) group.push_back(op.name == "copy" && src < group.size() ? group[src] : nextGroup++);
+      if (dst != (size_t)-1 && src < group.size()) group[dst] = group[src];
+      if (forcedIdx < group.size()) forcedGroups.insert(group[forcedIdx]);
+    }
     g_sampleCtx = &ctx;
     g_sampleClause = &rr.observerClause;
     auto savedSync = manifold::verif::hooks.syncPoint;
@@ -192,7 +211,10 @@ RunResult run_once(const Scenario& sc, const SimSetup& s, long k, long* nChecks,
     // Intermediates of the expression (they share op nodes with the observed tree): forced now,
     // WITHOUT a context, each must be Cancelled or denote what it denotes in the uncancelled run --
     // never a partially reduced tree.
-    for (size_t i = nOperands; i < e.M.size(); i++) rr.intermediates.push_back(solid_of(e.M[i]));
+    for (size_t i = nOperands; i < e.M.size(); i++) {
+      rr.intermediates.push_back(solid_of(e.M[i]));
+      rr.wasForced.push_back(i < group.size() && forcedGroups.count(group[i]) ? 1 : 0);
+    }
     // rebuild from the operands with a fresh context
     if (k > 0) {
       e.M.resize(nOperands);
@@ -236,7 +258,9 @@ std::string job_c15(const Args& a) {
   };
   if (!pt.clause.empty()) addViol(0, pt.clause);
   if (!ref.observerClause.empty()) addViol(0, ref.observerClause);
-  if (ref.status == (int)Manifold::Error::NoError || ref.status != (int)Manifold::Error::Cancelled) {
+  // "equals 1 after an uncancelled completion": a call that returned an error status (e.g. the mesh
+  // handed to Smooth/FromMeshGL failed validation) did not complete and is not held to that.
+  if (ref.status == (int)Manifold::Error::NoError) {
     if (ref.finalProgress != 1.0) addViol(0, "final_progress_not_1:" + std::to_string(ref.finalProgress));
   }
   if (ref.status == (int)Manifold::Error::Cancelled) addViol(0, "cancelled_without_cancel");
@@ -305,7 +329,14 @@ std::string job_c15(const Args& a) {
     if (r.intermediates.size() == ref.intermediates.size()) {
       for (size_t i = 0; i < r.intermediates.size(); i++) {
         const Solid& x = r.intermediates[i];
-        if (x.status == (int)Manifold::Error::Cancelled) continue;
+        if (x.status == (int)Manifold::Error::Cancelled) {
+          // in-flight nodes may be poisoned; a node the expression had already evaluated may not
+          if (i < r.wasForced.size() && r.wasForced[i]) {
+            addViol(k, "evaluated_intermediate_cancelled:node" + std::to_string(i));
+            break;
+          }
+          continue;
+        }
         if (!solid_equal(x, ref.intermediates[i])) {
           addViol(k, "intermediate_differs_after_cancel:node" + std::to_string(i));
           break;
